@@ -137,9 +137,9 @@ def families(tier):
         F.append(("wide", n, wide(n, min(n, 200), n, min(n, 16))))
     if tier == "thorough":
         r = core.rng("c20")
-        for k in range(60):
-            d = r.randint(3, 40)
-            w = r.randint(1, 3)
+        for k in range(400):
+            d = r.randint(3, 64)
+            w = r.randint(1, 4)
             v = r.random() < 0.5
             ents = tuple(r.choice(["compute", "fragment"]) for _ in range(r.randint(1, 5)))
             F.append(("random_graph", d * w, chain(d, v, w, ents)))
